@@ -251,6 +251,17 @@ def run_history(case, res):
                     tasks[uid].register_callback(late)
             tm.register_callback(cb)
 
+        # a callback registered with `cb_data`, and registered again with new
+        # data (an application does so per wave of submissions): the second
+        # registration replaces the first
+        if crng.random() < 0.5:
+            seen_data = list()
+            def cb_data_cb(task, state, cb_data):
+                seen_data.append((task.uid, state, cb_data['wave']))
+            tm.register_callback(cb_data_cb, cb_data={'wave': 1})
+            tm.register_callback(cb_data_cb, cb_data={'wave': 2})
+            case['_seen_data'] = seen_data
+
         for _ in range(crng.randint(1, 4)):
             k = crng.choice(['one', 'one', 'one*', 'raise', 'spawn'])
             if   k == 'one'  : one_shot(crng.choice(uids), crng.choice(states), False)
@@ -361,6 +372,22 @@ def run_history(case, res):
         if [s for _, s in seen_one[n1:]] != got[u0]:
             res.violation('per-task-callback-differs',
                           '%s vs %s' % (seen_one[n1:], got[u0]), ctx)
+
+    seen_data = case.pop('_seen_data', None)
+    if seen_data is not None and \
+            len(res.violations) + res.counters.get('violations_raw', 0) == v0:
+        res.count('cb_data_registrations_checked')
+        want = [(u, s) for u, s, _ in seen_all]
+        got_ = [(u, s) for u, s, _ in seen_data]
+        if got_ != want:
+            res.violation('cb-data-callback-differs', 'a callback registered '
+                          'twice (with cb_data) was told %d states, the '
+                          'observer %d: %s vs %s' % (len(got_), len(want),
+                          got_[:8], want[:8]), {'case': case})
+        elif any(w != 2 for _, _, w in seen_data):
+            res.violation('cb-data-of-replaced-registration-delivered',
+                          str(sorted({w for _, _, w in seen_data})),
+                          {'case': case})
 
     for u in case['uids']:
         res.see('final_states', tasks[u].state
